@@ -1,17 +1,18 @@
 #!/usr/bin/env python3
 """False-alarm test: applies the behaviour-preserving refactorings kept under /verif/neutral/<id>/patch.diff to /repo (all together, or the
 ids given on the command line), runs every quick check, and expects exit 0 from each (KNOWN-FINDING lines are fine). Reverts /repo afterwards.
-usage: tools/neutral_check.py [--each] [ids...]"""
+usage: tools/neutral_check.py [--benign] [--each] [ids...]   (--benign: the changes under /verif/benign, which alter behaviour the properties leave open)"""
 import subprocess, sys, os, json
-ids = [a for a in sys.argv[1:] if not a.startswith('--')] or sorted(os.listdir('/verif/neutral'))
-ids = [i for i in ids if os.path.isdir(f'/verif/neutral/{i}')]
+ROOT = '/verif/benign' if '--benign' in sys.argv else '/verif/neutral'
+ids = [a for a in sys.argv[1:] if not a.startswith('--')] or sorted(os.listdir(ROOT))
+ids = [i for i in ids if os.path.isdir(f'{ROOT}/{i}')]
 each = '--each' in sys.argv
 assert subprocess.run(['git', '-C', '/repo', 'status', '--short'], capture_output=True, text=True).stdout.strip() == '', '/repo is not clean'
 groups = [[i] for i in ids] if each else [ids]
 bad = []
 for g in groups:
     try:
-        for i in g: subprocess.run(['git', '-C', '/repo', 'apply', f'/verif/neutral/{i}/patch.diff'], check=True)
+        for i in g: subprocess.run(['git', '-C', '/repo', 'apply', f'{ROOT}/{i}/patch.diff'], check=True)
         for c in [f'C{n:02d}' for n in range(1, 21)]:
             r = subprocess.run(['./check', c, 'quick'], cwd='/verif', capture_output=True, text=True)
             v = [l for l in r.stdout.splitlines() if l.startswith('VIOLATION')]
@@ -19,6 +20,6 @@ for g in groups:
             if r.returncode != 0 or v: bad.append((g, c, r.returncode, v[:3]))
     finally:
         subprocess.run(['git', '-C', '/repo', 'checkout', '--', '.'])
-json.dump({'groups': groups, 'alarms': bad}, open('/verif/neutral/result.json', 'w'), indent=1)
+json.dump({'groups': groups, 'alarms': bad}, open(f'{ROOT}/result.json', 'w'), indent=1)
 print('ALARMS:', bad if bad else 'none')
 sys.exit(1 if bad else 0)
